@@ -39,17 +39,26 @@ func c01Check(x *vcRun, s *vcState, hist []vcEv) []hbfs.Fail {
 		fails = append(fails, hbfs.Fail{Key: k,
 			Msg: fmt.Sprintf("datastore {%s}: %s %q from a fresh start fed in key order = %s ; fed in reverse key order = %s", s.dsString(), d.Section, d.ID, vcShort(d.A, 1500), vcShort(d.B, 1500))})
 	}
+	for _, d := range shadowdp.DiffObjects(fr.fwd, fr.snap) {
+		k := "C01:batch-delivery-dependent:" + d.Class()
+		if seen[k] {
+			continue
+		}
+		seen[k] = true
+		fails = append(fails, hbfs.Fail{Key: k,
+			Msg: fmt.Sprintf("datastore {%s}: %s %q from a fresh start fed one KV per OnUpdates call = %s ; fed the same content as ONE batch = %s", s.dsString(), d.Section, d.ID, vcShort(d.A, 1500), vcShort(d.B, 1500))})
+	}
 	return fails
 }
 
 func TestVerif_C01(t *testing.T) {
-	vcMain(t, &vcProp{ID: "C01", Check: c01Check, Universes: []string{"pol", "set", "route", "route6", "dup"}},
+	vcMain(t, &vcProp{ID: "C01", Check: c01Check, Universes: []string{"pol", "set", "route", "route6", "dup"}, QuickBatchBases: map[string][]string{"pol": {"full"}}},
 		"states = (datastore content, in-sync flag, shadow dataplane content, EventSequencer pending-object digest) reached by histories of "+
 			"set(key,variant)/del(key)/flush/insync over five universes (pol: tiers, policies, profile labels+rules, WEP, HEP; set: rule selectors, named ports, "+
 			"shared IPs, remote WEP, network set; route: nodes, VXLAN host config, IP pool, IPAM block, WEP address; route6: the IPv6 twin of route with in-place IPv6 underlay/subnet changes; dup: profile lists naming a profile twice), "+
 			"each explored from an empty graph and from a fully populated, in-sync, flushed graph; re-delivering the current value (duplicate), deleting an absent key "+
 			"(spurious delete), reverting and coalescing are ordinary events of the alphabet; transitions = one event replayed on a fresh real graph "+
 			"(ValidationFilter->CalcGraph->EventSequencer); in every state: probe (in-sync + flush) then compare with a fresh graph fed only the latest content "+
-			"(forward and reverse key order); non-trivial = the probed dataplane holds at least one endpoint, route, IP set or VTEP",
+			"(forward and reverse key order, and as one single batch); non-trivial = the probed dataplane holds at least one endpoint, route, IP set or VTEP",
 		"the fresh-start reference is computed once per distinct datastore content (it is a function of the content only)")
 }
